@@ -6,8 +6,9 @@ Oracle (I/M) on the value returned by rescaling.rescale_tree_sequence(ts, mutati
  * sample times are bit-identical to the input;
  * non-sample times are a non-decreasing function of the input times: sorted by input time
    the output is non-decreasing (1e-12 relative slack: the piecewise-linear map is evaluated
-   per node, so two inputs straddling a break may differ by an ulp; worst reversal seen on the
-   fixed tree in 2e4 cases: 0.0) and equal inputs give equal outputs (exact: same operations);
+   per node, so two inputs straddling a break may differ by an ulp; no reversal at all was seen
+   with fixes_proposed/C37_rescale_ts.patch applied, 1.2e3 cases) and equal inputs give equal
+   outputs (exact: same operations);
  * every mutation's time is (t[parent] + t[child]) / 2 of the edge above its node at its
    position (exact: one addition and a halving), or its node's time above a root.
 
